@@ -78,10 +78,16 @@ def cases(tier, seed):
             for notation in ('past', 'call'):
                 for solver in ('euler', 'scipy'):
                     out.append({'kind': 'vec', 'n': n, 'named': named, 'notation': notation, 'solver': solver})
+                    if notation == 'past':
+                        # a node of another type declared first: the merged variable does not start at position 0
+                        out.append({'kind': 'vec', 'n': n, 'named': named, 'notation': notation, 'solver': solver, 'lead': True})
     # trajectories: method of steps and exact history of a ramp
     for tau in (0.5, 0.3, 1.0):
         for solver in ('euler', 'heun', 'scipy'):
             out.append({'kind': 'steps', 'tau': tau, 'solver': solver, 'k': 1.5})
+            if solver == 'scipy':
+                # output sampled much more coarsely than the delay: the history still follows the solver's own steps
+                out.append({'kind': 'steps', 'tau': tau, 'solver': solver, 'k': 1.5, 'dts': 1.0, 'T': 4.0})
             out.append({'kind': 'ramp', 'tau': tau, 'solver': solver})
             if solver != 'scipy':
                 # coarser sampling than stepping; a run that is longer than the initial capacity of the history buffer
@@ -213,7 +219,7 @@ def mos_solution(t, k, tau, x0):
 
 
 def run_steps(case, res, sig, viol):
-    k, tau, x0, T = case['k'], case['tau'], 0.8, 2.0
+    k, tau, x0, T = case['k'], case['tau'], 0.8, case.get('T', 2.0)
     op = {'eqs': [f"d/dt * x = -k*past(x, tau)"], 'vars': {'x': f'output({x0})', 'k': k, 'tau': tau}}
     errs = []
     for dt in ((2.0 ** -5, 2.0 ** -6) if case['solver'] != 'scipy' else (2.0 ** -5,)):
@@ -221,7 +227,7 @@ def run_steps(case, res, sig, viol):
         pool.fresh_state()
         circ = _circuit(op)
         kw = dict(rtol=1e-8, atol=1e-10) if case['solver'] == 'scipy' else {}
-        df = circ.run(simulation_time=T, step_size=dt, sampling_step_size=2.0 ** -3, outputs={'x': 'n/dop/x'},
+        df = circ.run(simulation_time=T, step_size=dt, sampling_step_size=case.get('dts', 2.0 ** -3), outputs={'x': 'n/dop/x'},
                       solver=case['solver'], backend='default', vectorize=False, verbose=False, float_precision='float64',
                       clear=True, **kw)
         ts = np.asarray(df.index, dtype=float)
@@ -230,7 +236,9 @@ def run_steps(case, res, sig, viol):
         res['evals'] += 1
     res['observed'] = {'errors': errs}
     if case['solver'] == 'scipy':
-        if errs[0] > 5e-3:
+        # with coarse output sampling dopri5 takes steps of up to one sampling interval and the history is the linear
+        # interpolant of those steps (0.07 observed for tau = 1): only a gross loss of the history is flagged there
+        if errs[0] > (0.15 if case.get('dts') else 5e-3):
             return viol('dde_solution_error', errors=errs)
     else:
         ratio = errs[0] / max(errs[1], 1e-300)
@@ -328,6 +336,9 @@ def run_vec(case, res, sig, viol):
         op = OperatorTemplate('dop', equations=[f"d/dt * x = -a*x - 0.75*{term('x', d, case['notation'])}"],
                               variables=dict({'x': 'output(0.4)', 'a': 0.5}, **({'tau': 0.5} if case['named'] else {})))
         nodes = {}
+        if case.get('lead'):
+            lo = OperatorTemplate('lop', equations=["d/dt * q = -2.0*q"], variables={'q': 'output(0.7)'})
+            nodes['lead0'] = NodeTemplate('lead0', operators=[lo])
         for i in range(n):
             ov = {'a': 0.5 + 0.25 * i, 'x': 0.4 + 0.3 * i}
             if case['named']:
